@@ -159,10 +159,10 @@ def main(tier):
             run.cov['traces_validated_against_impl'] += len(metas)
             if k == 0 and metas:
                 run.sample({'list_txt': info[metas[0][0]][1]['txt'].get('out', '')[:600]})
-            text = ['From Coq Require Import List ZArith String.', 'From NP Require Import IntervalSet ConnSet World Build Connlist Diff Format.',
+            text = ['From Coq Require Import List ZArith String.', 'From NP Require Import IntervalSet ConnSet World Build Connlist Diff Format RowInj.',
                     'Import ListNotations.', 'Open Scope Z_scope.', 'Definition lcases : list fmt_case := [', ';\n'.join(lcases), '].',
                     'Definition dcases : list dfmt_case := [', ';\n'.join(dcases), '].',
-                    'Definition MM := Eval vm_compute in fmt_mismatches lcases.', 'Definition DM := Eval vm_compute in dfmt_mismatches dcases.', 'Print MM.', 'Print DM.']
+                    'Definition MM := Eval vm_compute in fmt_mismatches lcases.', 'Definition DM := Eval vm_compute in dfmt_mismatches dcases.', 'Definition PM := Eval vm_compute in printable_mismatches lcases.', 'Print MM.', 'Print DM.', 'Print PM.']
             rc, out, err = core.run_coq_text('\n'.join(text))
             if rc != 0:
                 raise RuntimeError('coqc on format cases failed: ' + err[-1500:])
@@ -171,6 +171,13 @@ def main(tier):
                 payload, lo, do = info[cid]
                 run.report(None, 'bytes-%s-%d' % (names[code], cid), dict(payload, format=names[code], output=lo[names[code]]['out']),
                            'list %s output differs byte-wise from the format model applied to the API result' % names[code])
+            pm = core.parse_pairs(out, 'PM')
+            if pm is None:
+                raise RuntimeError('no PM in coqc output')
+            for cid, code in pm[:4]:
+                payload, lo, do = info[cid]
+                run.report(None, 'unprintable-%d' % cid, dict(payload, format='txt', output=lo['txt']['out']),
+                           'an entry of the API result is outside the domain on which the rendering is proved injective (non-canonical connection set, or a peer name with a blank/comma/quote or made of address characters only)')
             for cid, code in (core.parse_pairs(out, 'DM') or [])[:4]:
                 payload, lo, do = info[cid]
                 run.report(None, 'dbytes-%s-%d' % (names[code], cid), dict(payload, format=names[code], output=do[names[code]].get('out')),
